@@ -219,7 +219,8 @@ TEvict  == /\ Is("evict") /\ Judging
 TUnlink == /\ Is("unlink") /\ Judging
            \* ("nofile": there was nothing to remove; then the specification must not hold an intact entry either)
            /\ (F(Line, "res", "") = "nofile") => ~(store[Line.r].present /\ ~store[Line.r].lost)
-           /\ IF store[Line.r].present /\ ~store[Line.r].lost /\ Unlinks THEN Unlink(Line.r)
+           \* ("skipped": the driver left the file alone because a request or contact for the resource was open)
+           /\ IF store[Line.r].present /\ ~store[Line.r].lost /\ Unlinks /\ F(Line, "res", "") # "skipped" THEN Unlink(Line.r)
               ELSE (UNCHANGED <<now, origin, store, flight, creq, contacts, nextX, served>> /\ last' = {})
            /\ Consume
 TChange == Is("ochange") /\ Judging /\ OriginChange(Line.r, Line.form, Line.val) /\ Consume
